@@ -216,6 +216,27 @@ impl End {
     }
 }
 
+/// Position sentinel for range bounds: "the vector's current length" (resolved when the operation runs; used by follow-up
+/// operations after a leak, where the length is not known when the sequence is generated).
+pub const AT_LEN: usize = usize::MAX / 3;
+pub fn at_len(b: Bound<usize>, len: usize) -> Bound<usize> {
+    match b {
+        Bound::Included(x) if x == AT_LEN => Bound::Included(len),
+        Bound::Excluded(x) if x == AT_LEN => Bound::Excluded(len),
+        o => o,
+    }
+}
+
+/// How a lying replacement iterator misreports: `code` in -9..=9: always off by `code`; 40+d: honest on the first `len()`
+/// call, off by d from the second call on; 80+d: off by d on the first call only.
+pub fn lie_decode(code: i8) -> (isize, u8) {
+    match code {
+        31..=49 => (code as isize - 40, 1),
+        71..=89 => (code as isize - 80, 2),
+        _ => (code as isize, 0),
+    }
+}
+
 /// Replacement sequence of a splice.
 #[derive(Clone, Debug, PartialEq, Eq)]
 pub enum Repl {
